@@ -14,6 +14,10 @@ def only(ob):
     return ob.kind == 'panic'
 
 
+def only_or_termination(ob):
+    return ob.kind == 'panic'
+
+
 def main(tier):
     ck = propcheck.Check('C19', tier)
     N, heavy = (7, 5) if tier == 'quick' else (12, 6)
@@ -27,7 +31,8 @@ def main(tier):
     jobs = [('regex/parser.VerifC19ExpandTerminates', dict(params={'shape': sh}, unwind=8, hooks={'choice_strings': True}, timeout_ms=120000, terminal_obligations=(), unwind_is_violation=True)) for sh in range(4)]
     rs, viol = ck.run('definition-expansion-terminates', jobs, bounds={'definition_shapes': ['self reference with growth', 'two-cycle', 'pure self reference', 'chain'], 'unwind': 8})
     ck.triage(viol)
-    sj, sb = c02.shaped_jobs(tier, exclude, only)
+    # in the skeleton-guided jobs a loop of the clean-up passes that can exceed its bound is a violation candidate (hang)
+    sj, sb = c02.shaped_jobs(tier, exclude, only_or_termination, term=True)
     rs, viol = ck.run('flag-groups-shaped', sj, bounds=sb, job_timeout=420 if tier == 'quick' else 1500)
     ck.triage(viol)
     return ck.finish()
